@@ -385,6 +385,8 @@ def typing_model(role_of):
         return TV(x.trans, x.deg, False, nonneg=x.nonneg)
     m.ext["np.average"] = average
     m.ext["np.arange"] = lambda it, *a, **k: TV("INV", 0, True, "idx")
+    m.ext["np.triu_indices"] = lambda it, *a, **k: (TV("INV", 0, True, "idx"), TV("INV", 0, True, "idx"))
+    m.ext["np.tril_indices"] = m.ext["np.triu_indices"]
     m.ext["np.sum"] = lambda it, x, *a, **k: TV.of(x).sum()
     m.ext["scipy.stats.gaussian_kde"] = lambda it, x, *a, **k: KDE(TV.of(x))
     m.ext["np.where"] = lambda it, c, a=None, b=None: TV.of(a) if a is not None else TV("INV", 0, True, "idx")
@@ -608,6 +610,8 @@ class Arr:
     def _order(self):
         from .absint import compare
         idx = list(range(len(self.v)))
+        if all(isinstance(x, (int, Fr)) and not isinstance(x, bool) for x in self.v):
+            return sorted(idx, key=lambda i: self.v[i])          # literal numbers: the same stable order
         # insertion sort with exact comparisons (stable)
         out = []
         for i in idx:
@@ -712,6 +716,12 @@ def const_model():
         return Arr(binop(ast.Sub(), b, a) for a, b in zip(x.v, x.v[1:]))
     m.ext["np.diff"] = np_diff
     m.ext["np.arange"] = lambda it, *a: Arr(range(*[_i(x) for x in a]))
+
+    def triu(it, n, k=0, m_=None):
+        n, k = _i(n), _i(k)
+        pairs = [(i, j) for i in range(n) for j in range(n) if j - i >= k]
+        return (Arr(i for i, _ in pairs), Arr(j for _, j in pairs))
+    m.ext["np.triu_indices"] = triu
 
     def np_sqrt(it, x):
         return Arr(f_sqrt(T(e)) for e in x.v) if isinstance(x, Arr) else f_sqrt(T(x))
